@@ -27,6 +27,8 @@ EXTRA_PROPS = {
     'C09.check_reply': ['C14'],            # slot unlinked before the fallible hook allocations (seed2 C14-2)
     'C07.driver.remove_match': ['C14'],    # rule removed before the ack is staged (seed2 C14-1)
 }
+# loop-free units that take ~1 s: a short timeout so that the 'function grew a loop' retry (tool/core.py) starts early
+TIMEOUT = {'C12.edit.set_field': 120, 'C14.hdr_edit.set_field': 120, 'C12.edit.delete_field': 120, 'C14.hdr_edit.delete_field': 120}
 QUICK = ['C04.swap_owner.restore']          # moved to the quick tier (95 s): rollback of a replacement (seed C14-2)
 
 _here = os.path.dirname(__file__)
@@ -38,3 +40,5 @@ for _m in sorted(f[:-3] for f in os.listdir(_here) if f.endswith('.py') and not 
                 _u['props'] = list(_u['props']) + [_p]
         if _u['name'] in QUICK:
             _u['tier'] = 'quick'
+        if _u['name'] in TIMEOUT:
+            _u['timeout'] = TIMEOUT[_u['name']]
